@@ -60,8 +60,10 @@ _MORE = {
             "contract-based deductive verification with uninterpreted measurements (congruence schema) + native numeric oracle"),
     "C09": ("Invariant Q (stored iou = IOU(mask of source in its frame, mask of target in its frame)) preserved by every primitive and six user actions; EdgeAnnotator.update "
             "proved for AddEdge and UpdateNodeSeg. Bulk path and numeric value: native oracle.", "contract-based deductive verification with uninterpreted IoU + native numeric oracle"),
-    "C10": ("Protection of time and every annotator key by UpdateNodeAttrs (raises-iff, enabled or not) and 'only active keys are written' by the annotators' update() proved. "
-            "enable/disable/registry/KeyError-unchanged: bounded (seeded random interleavings).", "contract-based deductive verification (raises-iff, frame on active keys) + bounded stand-in"),
+    "C10": ("Protection of time and every annotator key by UpdateNodeAttrs (raises-iff, enabled or not) and 'only active keys are written' by the annotators' update() proved. Switching proved for key lists of "
+            "every length: (de)activation sets exactly the given flags, an unknown key raises KeyError with tables and FeatureDict unchanged, enable/disable add/remove exactly the given keys to/from the FeatureDict and request "
+            "the bulk computation once iff recompute. "
+            "Bounded: the values after enabling with recomputation (bulk compute) and whole interleavings with edits/undo/redo (seeded random).", "contract-based deductive verification (raises-iff, frame on active keys, table transformers with ghost key sets) + bounded stand-in"),
     "C12": ("BOUNDED STAND-IN ONLY, DataFrame/CSV path only: exhaustive small tables incl. malformed variants vs the source table. GEFF path not covered.", "bounded stand-in (no obligation discharged)"),
     "C13": ("relabel_segmentation proved for every number of frames, pixels and table rows: nested loop invariants (np.unique over times, items of dict(zip(seg ids, node ids))) give 'source pixels of "
             "(time, seg id) carry node id (+1 iff some id is 0), background elsewhere, input untouched, graph shifted in place exactly once iff id 0'. Bounded: cross-check on every 2x3 array x <=3 detections; "
